@@ -383,6 +383,16 @@ func (g *gen) generate(thorough bool) {
 				g.addGo("member-name", kdf+" "+strings.Join(p, ".")+"->"+nk, d.Bytes(), pw)
 			}
 		}
+		// encoding/json's name folding maps U+212A (Kelvin sign) to k and U+017F (long s) to s
+		for _, rn := range []struct {
+			path []string
+			nk   string
+		}{{[]string{"crypto", "kdf"}, "\u212adf"}, {[]string{"crypto", "kdfparams", "salt"}, "\u017falt"}, {[]string{"crypto", "kdfparams"}, "\u212adfparam\u017f"},
+			{[]string{"crypto", "cipherparams", "iv"}, "\u0131v"}} {
+			d := d0.Clone()
+			d.Rename(rn.nk, rn.path...)
+			g.addGo("member-name", kdf+" "+strings.Join(rn.path, ".")+"->"+rn.nk, d.Bytes(), pw)
+		}
 		dupes := []struct {
 			path []string
 			v    *J
